@@ -492,3 +492,166 @@ Proof.
   rewrite hist_lookup_filter, (hist_lookup_filter keys name k a).
   rewrite (merge_filter_silent _ a b ops M Hb). reflexivity.
 Qed.
+
+(* ------------------------------------------------------------------ histories with re-registration *)
+(* RegisterTable / RegisterTableSource under a name the store already holds replaces the source. *)
+Notation M_hstep := (hstep bytes bytes_eqb encodeKey).
+Notation M_hrun := (hrun bytes bytes_eqb encodeKey).
+Notation M_hfinal := (hfinal bytes bytes_eqb encodeKey).
+Notation M_register := (register bytes bytes_eqb encodeKey).
+
+Lemma hstep_enc : forall c ts h,
+  M_hstep c (enc_tables ts) h =
+  (enc_tables (fst (hstep (list kv) tuple_eqb id_key c ts h)), snd (hstep (list kv) tuple_eqb id_key c ts h)).
+Proof.
+  intros c ts h. destruct h as [o|name keys rows|o]; simpl.
+  - apply step_enc.
+  - rewrite register_enc. reflexivity.
+  - reflexivity.
+Qed.
+Lemma hrun_enc : forall c hs ts,
+  M_hrun c (enc_tables ts) hs = hrun (list kv) tuple_eqb id_key c ts hs.
+Proof.
+  intros c hs. induction hs as [|h hs IH]; intros ts; simpl; [reflexivity|].
+  rewrite hstep_enc. destruct (hstep (list kv) tuple_eqb id_key c ts h) as [ts' x]. simpl. rewrite IH. reflexivity.
+Qed.
+Theorem hrefinement : forall c regs hs, model_hrun c regs hs = spec_hrun c regs hs.
+Proof. intros. unfold model_hrun, spec_hrun. rewrite register_all_enc. apply hrun_enc. Qed.
+Theorem hrefinement_sql : forall q regs hs, model_hrun_sql q regs hs = spec_hrun_sql q regs hs.
+Proof. intros q regs hs. unfold model_hrun_sql, spec_hrun_sql. rewrite (parse_spec_code q). apply hrefinement. Qed.
+
+(* a history without registrations is a history of the old kind *)
+Lemma hrun_ops : forall c ops ts, M_hrun c ts (map HOp ops) = M_run c ts ops.
+Proof.
+  intros c ops. induction ops as [|o ops IH]; intros ts; simpl; [reflexivity|].
+  destruct (M_step c ts o) as [ts' x]. rewrite IH. reflexivity.
+Qed.
+Lemma model_hrun_ops : forall c regs ops, model_hrun c regs (map HOp ops) = model_run c regs ops.
+Proof. intros. apply hrun_ops. Qed.
+
+Lemma hrun_app : forall c hs1 hs2 ts,
+  M_hrun c ts (hs1 ++ hs2) = M_hrun c ts hs1 ++ M_hrun c (M_hfinal c ts hs1) hs2.
+Proof.
+  intros c hs1. induction hs1 as [|h hs1 IH]; intros hs2 ts; simpl; [reflexivity|].
+  destruct (M_hstep c ts h) as [ts' x] eqn:E. simpl. rewrite IH. reflexivity.
+Qed.
+
+(* what a row with join key k sees in table [name], together with the key fields the table is indexed by;
+   None: no table of that name *)
+Definition vis := option (list bytes * option row).
+Definition view (ts : tables bytes) (name : bytes) (k : list kv) : vis :=
+  match tget ts name with Some t => Some (t_keys t, M_slookup (encodeKey k) (t_idx t)) | None => None end.
+(* the contents of a freshly registered table: the rows upserted in order into the empty table -- the
+   last row with an equal key wins, a key no row has sees nothing. Nothing of an earlier table survives. *)
+Definition reg_view (keys : list bytes) (name : bytes) (k : list kv) (rows : list row) : option row :=
+  hist_lookup keys name k None (map (OUpsert name) rows).
+Definition vis_op (name : bytes) (k : list kv) (v : vis) (o : op) : vis :=
+  match v with
+  | Some (keys, cur) => Some (keys, hist_lookup keys name k cur [o])
+  | None => None
+  end.
+Fixpoint hview (name : bytes) (k : list kv) (v : vis) (hs : list hop) : vis :=
+  match hs with
+  | [] => v
+  | HOp o :: hs' => hview name k (vis_op name k v o) hs'
+  | HReg n keys rows :: hs' =>
+      hview name k (if bytes_eqb name n then Some (keys, reg_view keys name k rows) else v) hs'
+  | HDetached _ :: hs' => hview name k v hs'
+  end.
+
+Lemma fold_upsert_keys : forall rows (t : table bytes), t_keys (fold_left M_upsert rows t) = t_keys t.
+Proof. induction rows as [|r rows IH]; intros t; simpl; [reflexivity|]. rewrite IH. reflexivity. Qed.
+
+Lemma fold_upsert_lookup : forall name k rows (t : table bytes),
+  M_slookup (encodeKey k) (t_idx (fold_left M_upsert rows t)) =
+  hist_lookup (t_keys t) name k (M_slookup (encodeKey k) (t_idx t)) (map (OUpsert name) rows).
+Proof.
+  intros name k rows. induction rows as [|r rows IH]; intros t; [reflexivity|].
+  cbn [fold_left map]. rewrite IH. cbn [hist_lookup]. rewrite bytes_eqb_refl. cbn [andb].
+  change (t_keys (M_upsert t r)) with (t_keys t).
+  change (t_idx (M_upsert t r)) with (sset bytes_eqb (encodeKey (row_key (t_keys t) r)) r (t_idx t)).
+  rewrite M_lookup_sset. reflexivity.
+Qed.
+
+(* registration replaces: the table of that name is exactly the new rows under the new key fields,
+   whatever was registered under the name before; every other table is untouched *)
+Lemma view_register : forall ts n keys rows name k,
+  view (M_register ts n keys rows) name k =
+  if bytes_eqb name n then Some (keys, reg_view keys name k rows) else view ts name k.
+Proof.
+  intros ts n keys rows name k. unfold view, register. rewrite tget_tput.
+  destruct (bytes_eqb name n) eqn:E; [|reflexivity].
+  rewrite fold_upsert_keys. simpl. rewrite (fold_upsert_lookup name). reflexivity.
+Qed.
+
+Lemma view_step : forall c ts o name k, view (fst (M_step c ts o)) name k = vis_op name k (view ts name k) o.
+Proof.
+  intros c ts o name k. unfold view, vis_op.
+  destruct (tget ts name) as [t|] eqn:E.
+  - assert (Hk : keys_of ts name = Some (t_keys t)) by (unfold keys_of; rewrite E; reflexivity).
+    pose proof (step_keys c ts o name) as Hk'. rewrite Hk in Hk'. unfold keys_of in Hk'.
+    pose proof (read_your_writes c [o] ts name (t_keys t) k Hk) as H. unfold lookup_in in H.
+    cbn [final] in H. rewrite E in H.
+    destruct (tget (fst (M_step c ts o)) name) as [t'|]; cbn [option_map] in Hk'; [|discriminate].
+    injection Hk' as Hkeys. rewrite H, Hkeys. reflexivity.
+  - pose proof (step_keys c ts o name) as Hk'. unfold keys_of in Hk'. rewrite E in Hk'. simpl in Hk'.
+    destruct (tget (fst (M_step c ts o)) name) as [t'|]; simpl in Hk'; [discriminate|reflexivity].
+Qed.
+
+(* read-your-writes over every history with re-registrations: what key k sees in table [name] at the end
+   is decided by the LAST registration of the name and the Upserts / Deletes after it (last write wins);
+   registrations of other names, Emits and writes through detached handles change nothing *)
+Theorem h_read_your_writes : forall c hs ts name k,
+  view (M_hfinal c ts hs) name k = hview name k (view ts name k) hs.
+Proof.
+  intros c hs. induction hs as [|h hs IH]; intros ts name k; simpl; [reflexivity|].
+  rewrite IH. destruct h as [o|n keys rows|o]; simpl.
+  - rewrite view_step. reflexivity.
+  - rewrite view_register. reflexivity.
+  - reflexivity.
+Qed.
+
+(* hview forgets everything before the last registration of the name *)
+Lemma hview_after_register : forall name k v v' n keys rows hs, bytes_eqb name n = true ->
+  hview name k v (HReg n keys rows :: hs) = hview name k v' (HReg n keys rows :: hs).
+Proof. intros name k v v' n keys rows hs H. simpl. rewrite H. reflexivity. Qed.
+
+(* the statement the seeded "sources cached per table-set epoch" change breaks: whatever happened before
+   (tables registered, rows processed, updates), after RegisterTable returned the state a row / an Upsert
+   finds under the name is that of a store in which ONLY this registration ever happened *)
+Theorem register_forgets : forall c hs0 hs ts ts' n keys rows k,
+  view (M_hfinal c ts (hs0 ++ HReg n keys rows :: hs)) n k =
+  view (M_hfinal c ts' (HReg n keys rows :: hs)) n k.
+Proof.
+  intros c hs0 hs ts ts' n keys rows k.
+  assert (Happ : forall a b t, M_hfinal c t (a ++ b) = M_hfinal c (M_hfinal c t a) b).
+  { induction a as [|h a IHa]; intros b t; simpl; [reflexivity|apply IHa]. }
+  rewrite Happ. rewrite !h_read_your_writes.
+  apply hview_after_register. apply bytes_eqb_refl.
+Qed.
+
+(* witness: INNER JOIN t m ON k = m.a. t = [{a:1,v:7}]; a row with k = 1 sees v = 7; t registered again
+   with [{a:1,v:8},{a:2,v:9}]: k = 1 sees v = 8, k = 2 sees v = 9; Upsert {a:1,v:10}: k = 1 sees v = 10;
+   a Delete through the replaced handle changes nothing; t registered again keyed by v: k = 9 sees a = 2 *)
+Definition rr_cfg : cfg :=
+  {| c_src_alias := None; c_joins := [{| j_table := sw_t; j_left := false; j_alias := sw_m; j_pairs := [(sw_k, sw_a)] |}] |}.
+Definition rr_hs : list hop :=
+  [HOp (OEmitSync [(sw_k, KInt 1)]);
+   HReg sw_t [sw_a] [[(sw_a, KInt 1); (sw_v, KInt 8)]; [(sw_a, KInt 2); (sw_v, KInt 9)]];
+   HOp (OEmitSync [(sw_k, KInt 1)]); HOp (OEmitSync [(sw_k, KInt 2)]);
+   HOp (OUpsert sw_t [(sw_a, KInt 1); (sw_v, KInt 10)]); HDetached (ODelete sw_t (DSingle (KInt 1)));
+   HOp (OEmitSync [(sw_k, KInt 1)]);
+   HReg sw_t [sw_v] [[(sw_a, KInt 2); (sw_v, KInt 9)]];
+   HOp (OEmitSync [(sw_k, KInt 9)]); HOp (OEmitSync [(sw_k, KInt 2)])].
+Lemma rereg_example :
+  model_hrun rr_cfg [(sw_t, [sw_a], [[(sw_a, KInt 1); (sw_v, KInt 7)]])] rr_hs =
+  [OutE (ERow [(sw_k, WV (KInt 1)); (sw_m, WR [(sw_a, KInt 1); (sw_v, KInt 7)])]);
+   OutG true;
+   OutE (ERow [(sw_k, WV (KInt 1)); (sw_m, WR [(sw_a, KInt 1); (sw_v, KInt 8)])]);
+   OutE (ERow [(sw_k, WV (KInt 2)); (sw_m, WR [(sw_a, KInt 2); (sw_v, KInt 9)])]);
+   OutU true; OutD;
+   OutE (ERow [(sw_k, WV (KInt 1)); (sw_m, WR [(sw_a, KInt 1); (sw_v, KInt 10)])]);
+   OutG true;
+   OutE (ERow [(sw_k, WV (KInt 9)); (sw_m, WR [(sw_a, KInt 2); (sw_v, KInt 9)])]);
+   OutE EDrop].
+Proof. vm_compute. reflexivity. Qed.
